@@ -80,10 +80,6 @@ class Block:
         self._variables_per_trial = None
         self.__validate(who)
         self._cached_previous_count = cast(Dict[Tuple[Factor, int], int], {})
-        for count in crossing_sustain_counts:
-            # round min trials up to multiple of sustain
-            if (self.min_trials//count) * count != self.min_trials:
-                self.min_trials = ((self.min_trials//count) + 1) * count
 
     def sep_continuous_factors(self, 
                              design: List[Factor])->List[Factor]:
@@ -270,6 +266,10 @@ class Block:
         for c in self.constraints:
             if isinstance(c, MinimumTrials):
                 c.apply(self, None)
+        for count in self.crossing_sustain_counts:
+            # round min trials up to multiple of sustain (before any constraint asks for the trial count)
+            if (self.min_trials//count) * count != self.min_trials:
+                self.min_trials = ((self.min_trials//count) + 1) * count
         for c in self.constraints:
             c.validate(self)
         for c in self.constraints:
